@@ -211,6 +211,34 @@ def generate(repo, gen_dir):
              r"Poll::Pending => return Ok\(\(\)\),\s*\}\s*\}" + CM + WAKE + r"\s*Ok\(\(\)\)\s*\}\s*fn append_pending")
     if m:
         dbool("MP_WAKE_AFTER_LOOP", m.group(1) is None, PAYLOAD, "unconditional wake_by_ref after the chunk budget is used up (F25)")
+    # append_pending: the free room is derived from the buffer itself on EVERY call (no room
+    # parameter, no cached value), with the Overflow guard in front (seeded change C15-3)
+    m = find(["MP_AP_OVERFLOW_TEST", "MP_AP_AVAILABLE", "MP_AP_LEN", "MP_AP_WHOLE_TEST"], PAYLOAD,
+             r"fn append_pending\(&mut self\) -> Result<bool, PayloadError> \{\s*let Some\(mut data\) = self\.pending\.take\(\) else \{\s*return Ok\(false\);\s*\};\s*"
+             r"if data\.is_empty\(\) \{\s*return Ok\(false\);\s*\}\s*"
+             r"if self\.buf\.len\(\) (>=|>) self\.buffer_limit \{\s*self\.pending = Some\(data\);\s*return Err\(PayloadError::Overflow\);\s*\}\s*"
+             r"let available = self\.buffer_limit - self\.buf\.len\(\);\s*let len = cmp::(min|max)\(data\.len\(\), available\);\s*"
+             r"if len == data\.len\(\) \{\s*self\.buf\.extend_from_slice\(&data\);\s*\} else \{\s*let chunk = data\.split_to\(len\);\s*"
+             r"self\.buf\.extend_from_slice\(&chunk\);\s*self\.pending = Some\(data\);\s*\}\s*Ok\(len != 0\)\s*\}")
+    if m:
+        defs.append("Definition MP_AP_OVERFLOW_TEST (len limit : N) : bool := %s.  (* %s append_pending: `if self.buf.len() %s self.buffer_limit` => Overflow *)"
+                    % ("(limit <=? len)%N" if m.group(1) == ">=" else "(limit <? len)%N", PAYLOAD, m.group(1)))
+        consts.append(("MP_AP_OVERFLOW_TEST", OPCODE[m.group(1)]))
+        defs.append("Definition MP_AP_AVAILABLE (limit len : N) : N := (limit - len)%%N.  (* %s append_pending: `let available = self.buffer_limit - self.buf.len()` recomputed on every call *)" % PAYLOAD)
+        consts.append(("MP_AP_AVAILABLE", 1))
+        defs.append("Definition MP_AP_LEN (datalen available : N) : N := N.%s datalen available.  (* %s `cmp::%s(data.len(), available)` *)" % (m.group(2), PAYLOAD, m.group(2)))
+        consts.append(("MP_AP_LEN", 0 if m.group(2) == "min" else 1))
+        defs.append("Definition MP_AP_WHOLE_TEST (len datalen : N) : bool := (len =? datalen)%%N.  (* %s `if len == data.len()` extend whole, else split_to(len) and keep the rest pending *)" % PAYLOAD)
+        consts.append(("MP_AP_WHOLE_TEST", 4))
+    # both call sites inside the poll loop pass no room of their own
+    t = text(PAYLOAD)
+    if t is not None:
+        n_calls = len(re.findall(r"self\.append_pending\(\)\?;", t))
+        n_any = len(re.findall(r"self\.append_pending\(", t))
+        if n_calls == 2 and n_any == 2:
+            dnat("MP_AP_CALL_SITES", 2, PAYLOAD, "`self.append_pending()?;` (no argument) at both sites of the poll loop")
+        else:
+            missing.append(("MP_AP_CALL_SITES", PAYLOAD, "%d plain call sites of %d" % (n_calls, n_any)))
     m = find(["MP_EOF_NO_WAKE"], PAYLOAD, r"Poll::Ready\(None\) => \{\s*self\.eof = true;\s*return Ok\(\(\)\);\s*\}")
     if m:
         dbool("MP_EOF_NO_WAKE", True, PAYLOAD, "end of stream: eof = true, return without wake")
